@@ -340,12 +340,39 @@ func (ex *executor) execCall(st *state, in ssa.Instruction, cc *ssa.CallCommon, 
 			setRes(res)
 			return
 		}
+		if rc := ex.root().contract; rc != nil && rc.AllocOnly != nil && ex.parent == nil {
+			// call through a parameter declared `allocator`: returns a fresh non-nil object, writes nothing
+			if u, ok := cc.Value.(*ssa.UnOp); ok && u.Op == token.MUL {
+				if a, ok := u.X.(*ssa.Alloc); ok {
+					if why, ok := rc.AllocOnly[a.Comment]; ok && len(cc.Args) == 0 {
+						ex.root().abstracted[fmt.Sprintf("call through parameter %s assumed to only allocate its result: %s", a.Comment, why)]++
+						r := ex.freshResult(st, rt, "r.alloc")
+						nr := ex.newRef(st)
+						for i, k := range leafKinds(rt) {
+							if k == leafRef && i < len(r.C) {
+								// interface results: (type tag, payload); pointer results: the pointer itself
+								if i == len(r.C)-1 {
+									ex.assume(st, Eq(r.C[i], nr))
+								}
+							}
+						}
+						setRes(r)
+						return
+					}
+				}
+			}
+		}
 		ex.root().callees["unknown:dynamic"] = true
 		ex.havocAll(st, "dynamic call "+ex.srcText(in.Pos(), ""))
 		setRes(ex.freshResult(st, rt, "r.dyn"))
 		return
 	}
 	key := fnKey(callee)
+	if !ex.inSpec && callee.Signature.Recv() != nil && (callee.Name() == "Push" || callee.Name() == "Pop" || callee.Name() == "Swap") && ex.eng.implementsHeap(callee.Signature.Recv().Type()) {
+		// representation invariant of a binary heap: its slice is changed through container/heap only
+		o := ex.addObligation(st, "heap-discipline", "direct call of "+shortFnKey(key)+" bypasses container/heap "+ex.srcText(in.Pos(), ""), Not(st.pc), in.Pos())
+		o.Definite = true
+	}
 	if v, ok := ex.intrinsic(st, key, args, rt); ok {
 		setRes(v)
 		return
@@ -515,6 +542,17 @@ func (ex *executor) applyContract(st *state, c *Contract, key string, names []st
 			}
 			if len(keep) > 0 {
 				r.abstracted["callee "+short+" assumed to preserve the locations listed in its contract"]++
+			}
+			if len(c.Except) > 0 {
+				env.st = pre
+				var xl []*locRef
+				for _, xc := range c.Except {
+					xl = append(xl, ex.evalLoc(xc, env)...)
+				}
+				env.st = st
+				for _, l := range xl {
+					ex.havocLoc(st, l, st.alloc)
+				}
 			}
 		}
 	}
